@@ -8,27 +8,38 @@ FLOAT_KINDS = {'sweepc', 'sweeps', 'transpose', 'consurf-u', 'consurf-v', 'convo
 FLOAT_TOL = 1e-9
 STATS = G.STATS
 PARTIAL = [
-    "boundary sections: proved at the level of nets, degrees and knot vectors (sweep_*_sections) AND of evaluated "
-    "points (surface_boundary_u/v_is_extracted_curve, volume_boundary_is_extracted_surface, sweep_curve/surface_"
-    "boundary_points: at a clamped domain end the iso-curve / iso-surface is the first / last extracted curve / "
-    "surface; the two end sections of a sweep are the input and its translate) for NON-RATIONAL evaluation "
-    "(curvePoint / surfacePoint / volumePoint on the stored points); for rational shapes the statement holds for "
-    "the homogeneous points before the division by the weight, the projected form is not stated; the surface sweep "
-    "theorems carry the guard of the code / driver op (at least 3 spatial coordinates: Volume.set_ctrlpts raises for a "
-    "planar surface) and have corollaries with the generated knot vector knotGenerate 1 2 = [0,0,1,1] "
-    "(sweep_knot_vector_generated, sweep_*_boundary_points_generated: V(u,v,0) = S, V(u,v,1) = translate)",
-    "the ctrlpts/weights split-and-recombine that construct_* and sweep_vector perform on rational shapes is "
-    "modelled as the identity on homogeneous points (exact for non-zero weights; the arithmetic belongs to C09); "
-    "sweep_rational_point proves that the homogeneous point map used for sweeps projects to the translate",
+    "boundary sections: proved at the level of nets, degrees and knot vectors (sweep_*_sections, sweep_sections_rational) AND of "
+    "evaluated points, non-rational (surface_boundary_u/v_is_extracted_curve, volume_boundary_is_extracted_surface, "
+    "sweep_curve/surface_boundary_points: curvePoint / surfacePoint / volumePoint on the stored points, every coordinate) and "
+    "RATIONAL (…_rational: project of the evaluated homogeneous point = what the rational evaluators return; positive weights; "
+    "the weight divided by is proved positive; far section of a rational sweep = C(v) + vec resp. S(u,v) + vec in Cartesian "
+    "coordinates).  The rational forms need KnotsOk (non-decreasing, last span non-empty) in every direction and the free "
+    "parameters in the closed domain (outside it the evaluated weight need not be positive); the non-rational forms hold for every "
+    "parameter.  The surface sweep theorems carry the guard of the code / driver op (at least 3 spatial coordinates: "
+    "Volume.set_ctrlpts raises for a planar surface) and have corollaries with the generated knot vector knotGenerate 1 2 = "
+    "[0,0,1,1] (sweep_*_boundary_points(_rational)_generated: V(u,v,0) = S, V(u,v,1) = translate)",
+    "the ctrlpts/weights split-and-recombine that construct_* and sweep_vector perform on rational shapes is modelled twice: as the "
+    "identity on homogeneous points (Model/Layout.lean, ops consurf/convol/sweepc/sweeps) and written out with the C09 views "
+    "(Model/LayoutRat.lean: per-object ctrlpts/weights getters, separate concatenation / re-ordering, combine-flip-separate for "
+    "direction v, ns.ctrlpts= then ns.weights= on a fresh object, deep copy + ctrlpts setter for the swept copy; ops "
+    "consurfr/convolr/sweepcr/sweepsr, run on every rational case); the two are PROVED equal for non-zero weights "
+    "(rational_split_recombine_identity, construct_surface/volume_rational_explicit, sweep_vector_rational_explicit) and the rational "
+    "sweep theorems are stated for the written-out model.  Not modelled: the input objects' caches are taken empty (the getters "
+    "return separate(net) either way, C09 views_consistent), validation inside NURBS set_ctrlpts; a zero weight makes the real code "
+    "raise (ZeroDivisionError in separate_ctrlpts_weights) = ERR of the written-out ops (stream ratzero)",
     "knot vectors are carried through unchanged; the validation / normalisation done by the knot-vector setters "
     "is not modelled here (C03)",
-    "volume evaluation is tied to the layout through extract_surfaces (volume_eval_through_extracted_surfaces: "
-    "V(u,v,w) = curve point of the polygon of extracted-surface points, all three families) and by the exact "
-    "oracle (tensor-product reference); there is no Lean evaluation theorem for construct_volume output other "
-    "than through the round-trip theorems (extract_construct_volume)",
+    "evaluation of constructed shapes: construct_surface_eval / construct_volume_eval (all stacking directions, repaired code) give "
+    "S(t,v) resp. V(t,a,b) = degree-degO curve with the given knot function through the points C_i(v) resp. S_i(a,b), every "
+    "coordinate of the stored points; the inputs are evaluated with the degree(s) and knot vector(s) of the FIRST input (the code "
+    "copies only args[0].knotvector*; inputs with other knot vectors are silently re-parametrised - an observation, not a "
+    "finding).  For rational inputs this is the statement on homogeneous points (weight coordinate included); the projected "
+    "corollary is not stated separately.  The knot vector knotvector.generate(degree, len(args)) used when no knotvector= is "
+    "passed is not tied in (C03)",
 ]
 ASSUMPTIONS = [
-    "weights are non-zero (rational shapes are compared on their homogeneous nets)",
+    "rational shapes are compared on their homogeneous nets; the identity-model ops are generated with non-zero (positive) weights "
+    "only, the written-out ops additionally with one zero weight (both sides must raise / answer ERR)",
     "knot vectors are already normalised to [0,1] (the knot-vector setters normalise; identity here)",
     "operations.transpose leaves sample_size_u/v (delta) unswapped; this affects only sampled evalpts grids and is "
     "recorded as an observation (DESIGN section 7, C13), not checked",
@@ -213,7 +224,63 @@ def convol_case(V, rat, d, tags=()):
     return Case('convol-' + d, line, dict(dir=d, deg=deg, kv=kv, surfs=ss, rat=rat, vol=V), tags=tags)
 
 
+def rat_twin(c):
+    """the same input for the model WITH the ctrlpts / weights split-and-recombine (Model/LayoutRat.lean):
+    ops consurfr / convolr / sweepcr / sweepsr; rational cases only"""
+    if not c.data.get('rat'):
+        return None
+    k, ln = c.kind, c.line
+    if k.startswith('consurf-'):
+        return Case('consurfr-' + k[len('consurf-'):], 'consurfr' + ln[len('consurf'):], dict(c.data), tags=c.tags)
+    if k.startswith('convol-'):
+        return Case('convolr-' + k[len('convol-'):], 'convolr' + ln[len('convol'):], dict(c.data), tags=c.tags)
+    if k == 'sweepc':
+        assert ln.startswith('sweepc 1 ')
+        return Case('sweepcr', 'sweepcr ' + ln[len('sweepc 1 '):], dict(c.data), tags=c.tags)
+    if k == 'sweeps':
+        assert ln.startswith('sweeps 1 ')
+        return Case('sweepsr', 'sweepsr ' + ln[len('sweeps 1 '):], dict(c.data), tags=c.tags)
+    return None
+
+
+def zero_weight(rng, P):
+    """one homogeneous point gets weight 0 (separate_ctrlpts_weights divides by it)"""
+    P = [list(p) for p in P]
+    P[rng.randrange(len(P))][-1] = F(0)
+    return P
+
+
 def gen(rng, tier):
+    out = gen_base(rng, tier)
+    tw = [t for t in (rat_twin(c) for c in out) if t is not None]
+    # malformed stream of the split-and-recombine ops: a zero weight in one input
+    bad = []
+    for t in tw:
+        if rng.random() < .12:
+            d = dict(t.data)
+            if t.kind.startswith('consurfr-'):
+                cs = [dict(x) for x in d['crvs']]
+                i = rng.randrange(len(cs)); cs[i]['pts'] = zero_weight(rng, cs[i]['pts'])
+                d['crvs'] = cs; d.pop('srf', None)
+                ln = "consurfr %s %d %s %s" % (d['dir'], d['deg'], show_list(d['kv']), " ".join(crv_txt(x) for x in cs))
+            elif t.kind.startswith('convolr-'):
+                ss = [dict(x) for x in d['surfs']]
+                i = rng.randrange(len(ss)); ss[i]['pts'] = zero_weight(rng, ss[i]['pts'])
+                d['surfs'] = ss; d.pop('vol', None)
+                ln = "convolr %s %d %s %s" % (d['dir'], d['deg'], show_list(d['kv']), " ".join(srf_txt(x) for x in ss))
+            elif t.kind == 'sweepcr':
+                c = dict(d['crv']); c['pts'] = zero_weight(rng, c['pts']); d['crv'] = c
+                ln = "sweepcr %s %s" % (crv_txt(c), show_list(d['vec']))
+            else:
+                S = dict(d['srf']); S['pts'] = zero_weight(rng, S['pts']); d['srf'] = S
+                ln = "sweepsr %s %s" % (show_list(d['vec']), srf_txt(S))
+            d['zero'] = True
+            G.count('ratzero', t.kind.split('-')[0])
+            bad.append(Case('ratzero', ln, d))
+    return out + tw + bad
+
+
+def gen_base(rng, tier):
     quick = tier == 'quick'
     out = []
     # the recorded witnesses first (small): 2x3x4 net (F-13a), a quadratic curve swept (F-13b)
@@ -354,18 +421,20 @@ def impl(c):
     if k.startswith('excurves-'):
         ex = construct.extract_curves(mk_surf(d['srf'], rat))
         return join(crv_txt(crv_data(o)) for o in ex[d['dir']])
-    if k.startswith('consurf-'):
+    if k == 'ratzero':
+        k = c.line.split(' ', 1)[0] + '-'
+    if k.startswith('consurf-') or k.startswith('consurfr-'):
         cs = [mk_curve(cc, rat) for cc in d['crvs']]
         return srf_txt(srf_data(construct.construct_surface(d['dir'], *cs, degree=d['deg'], knotvector=qs(d['kv']))))
     if k.startswith('exsurfs-'):
         ex = construct.extract_surfaces(mk_vol(d['vol'], rat))
         return join(srf_txt(srf_data(o)) for o in ex[d['key']])
-    if k.startswith('convol-'):
+    if k.startswith('convol-') or k.startswith('convolr-'):
         ss = [mk_surf(s, rat) for s in d['surfs']]
         return vol_txt(vol_data(construct.construct_volume(d['dir'], *ss, degree=d['deg'], knotvector=qs(d['kv']))))
-    if k == 'sweepc':
+    if k in ('sweepc', 'sweepcr', 'sweepcr-'):
         return srf_txt(srf_data(sweeping.sweep_vector(mk_curve(d['crv'], rat), qs(d['vec']))))
-    if k == 'sweeps':
+    if k in ('sweeps', 'sweepsr', 'sweepsr-'):
         return vol_txt(vol_data(sweeping.sweep_vector(mk_surf(d['srf'], rat), qs(d['vec']))))
     raise ValueError(k)
 
@@ -426,12 +495,73 @@ def _translate(P, vec, rat):
     return [[c + t * p[-1] for c, t in zip(p[:-1], vec)] + [p[-1]] for p in P]
 
 
+def _stack_expected(d, kind):
+    """what the layout model claims for rational input: the stacked homogeneous nets, re-ordered; no arithmetic"""
+    if kind.startswith('consurfr'):
+        cs = d['crvs']; n, num = len(cs), len(cs[0]['pts'])
+        flat = [p for x in cs for p in x['pts']]
+        if d['dir'] == 'u':
+            return flat
+        return [flat[i + j * num] for i in range(num) for j in range(n)]
+    ss = d['surfs']; n, a, b = len(ss), ss[0]['su'], ss[0]['sv']
+    flat = [p for x in ss for p in x['pts']]
+    if d['dir'] == 'w':
+        return flat
+    if d['dir'] == 'u':
+        return [flat[w + v * b + u * a * b] for w in range(b) for u in range(n) for v in range(a)]
+    return [flat[w + u * b + v * a * b] for w in range(b) for u in range(a) for v in range(n)]
+
+
+def oracle_rat(c):
+    """split-and-recombine = identity on homogeneous points (non-zero weights); a zero weight must raise"""
+    from geomdl import construct, sweeping
+    d = c.data
+    k = c.kind
+    if k == 'ratzero':
+        try:
+            impl(c)
+        except Exception:
+            return None
+        return "a zero weight was accepted by the ctrlpts / weights split"
+    if k.startswith('consurfr-') or k.startswith('convolr-'):
+        if k.startswith('consurfr-'):
+            cs = d['crvs']
+            ok = len(cs) >= 2 and all(x['deg'] == cs[0]['deg'] and len(x['pts']) == len(cs[0]['pts']) for x in cs) and d['deg'] + 1 <= len(cs)
+            f = lambda: construct.construct_surface(d['dir'], *[mk_curve(x, True) for x in cs], degree=d['deg'], knotvector=qs(d['kv']))
+        else:
+            ss = d['surfs']
+            ok = len(ss) >= 2 and all((x['du'], x['dv'], x['su'], x['sv']) == (ss[0]['du'], ss[0]['dv'], ss[0]['su'], ss[0]['sv']) for x in ss) \
+                and d['deg'] + 1 <= len(ss)
+            f = lambda: construct.construct_volume(d['dir'], *[mk_surf(x, True) for x in ss], degree=d['deg'], knotvector=qs(d['kv']))
+        try:
+            r = f()
+        except Exception as e:
+            return None if not ok else "%s raised %s on admissible rational input" % (k.split('-')[0][:-1], type(e).__name__)
+        if not ok:
+            return None          # judged by the base stream
+        if plain(r.ctrlptsw) != _stack_expected(d, k):
+            return "rational %s: the homogeneous net of the result is not the stacked homogeneous nets (split-and-recombine is not the identity)" % k
+        return None
+    if k in ('sweepcr', 'sweepsr'):
+        o = mk_curve(d['crv'], True) if k == 'sweepcr' else mk_surf(d['srf'], True)
+        P = (d['crv'] if k == 'sweepcr' else d['srf'])['pts']
+        if k == 'sweepsr' and len(d['vec']) < 3:
+            return None
+        r = sweeping.sweep_vector(o, qs(d['vec']))
+        if plain(r.ctrlptsw) != P + _translate(P, d['vec'], True):
+            return "rational sweep: the homogeneous net is not [net, net translated in Cartesian coordinates with the weights kept]"
+        return None
+    return None
+
+
 def oracle(c):
     from geomdl import construct, sweeping, operations, control_points, compatibility
     import copy
     d = c.data
     k = c.kind
     rat = d.get('rat', False)
+    if k == 'ratzero' or k.endswith('r') and k in ('sweepcr', 'sweepsr') or k.startswith('consurfr-') or k.startswith('convolr-'):
+        return oracle_rat(c)
     if k in ('c2d', 'set2d', 'mgrget2', 'mgrset2'):
         S = d['srf']; su, sv, P = S['su'], S['sv'], S['pts']
         o = mk_surf(S, rat)
